@@ -238,6 +238,64 @@ def job_reset(lo, hi, tier, seed):
     return ck.export()
 
 
+def job_own_memory(tier, seed):
+    """the DSP memory the emulator allocates itself (UserConfig::dsp_memory == nullptr): after the SharedMemory constructor every
+    byte is determined by the program - the block operator new returns is an array of unconstrained bytes here"""
+    from checks import c11
+    ck = core.Check('C17', 'model_checking', tier, seed)
+    E = c11.Env()
+    ex, st, ctx = E.mk()
+    garbage = z3.Array('heap_garbage', z3.BitVecSort(64), z3.BitVecSort(8))
+    big = {}
+    znwm = ex.intercepts['@_Znwm']
+
+    def new_(e, st_, a):
+        if is_c(a[0]) and a[0] >= 0x10000:
+            r = e.new_region(st_, a[0], 'heap%d' % a[0])
+            st_.mem[r].arr = garbage
+            big[r] = a[0]
+            return st_, Ptr(r, 0)
+        return znwm(e, st_, a)
+    ex.intercepts['@_Znwm'] = new_
+    ex.intercepts['@_Znam'] = new_
+    sm = ex.new_region(st, 16, 'shared_memory_own')
+    try:
+        r = ex.call(st, '@sm_ctor', [Ptr(sm, 0), Ptr(0, 0)])
+    except (Abort, UnwindBound) as x:
+        ck.inconclusive.append('NoGarbage[ctor: own DSP memory]: %s' % str(x)[:120])
+        return ck.export()
+    s1 = r[0]
+    raw = ex.load(s1, Ptr(sm, 8), 8)
+    ck.ninstr += ex.ninstr
+    ck.nstates += 1
+    if not (isinstance(raw, Ptr) and raw.r in big and not raw.sym):
+        ck.prove('NoGarbage[ctor: own DSP memory]', [], z3.BoolVal(False), vars={}, witness=False, sample='SharedMemory(nullptr) does not leave raw pointing at a block of its own')
+        return ck.export()
+    arr = s1.mem[raw.r].arr
+    if not garbage_arrays(arr):
+        ck.identical('NoGarbage[ctor: own DSP memory]', sample='SharedMemory(nullptr): the 0x%x-byte block it allocates is completely written by the constructor (the array term does not mention the allocator\'s bytes)' % big[raw.r])
+    else:
+        k = z3.BitVec('byte_index', 64)
+        g2 = z3.Array('heap_garbage2', z3.BitVecSort(64), z3.BitVecSort(8))
+        arr2 = z3.substitute(arr, (garbage, g2))
+        ck.prove('NoGarbage[ctor: own DSP memory]', [z3.ULT(k, big[raw.r])], z3.Select(arr, k) == z3.Select(arr2, k), vars={'byte_index': k}, witness=False,
+                 sample='SharedMemory(nullptr): every byte of the block it allocates is the same for every content the allocator hands out')
+    return ck.export()
+
+
+def garbage_arrays(t):
+    seen, todo = set(), [t]
+    while todo:
+        e = todo.pop()
+        if e.get_id() in seen:
+            continue
+        seen.add(e.get_id())
+        if z3.is_const(e) and e.decl().kind() == z3.Z3_OP_UNINTERPRETED and e.decl().name().startswith('heap_garbage'):
+            return True
+        todo.extend(e.children())
+    return False
+
+
 def _dispatch(fn, args):
     return fn(*args)
 
@@ -250,7 +308,7 @@ def run(tier, seed):
     ck.ninstr += ctx['ctor_instr']
     ck.funcs.update(['Teakra::Teakra::Impl::Impl and every member constructor (CoreTiming, SharedMemory, MemoryInterfaceUnit, ICU, Apbp, Timer, Ahbm, Dma, Btdmp, MMIORegion, MemoryInterface, Processor, RegisterState, Interpreter)',
                      'Teakra::Teakra::Impl::Reset and every component Reset', 'MMIORegion::Read (all 0x800 cells)'])
-    ck.assumptions += ['operator new / the Impl storage return memory whose bytes are unconstrained symbolic values until written (heap fill patterns = symbolic variables)',
+    ck.assumptions += ['operator new / the Impl storage return memory whose bytes are unconstrained symbolic values until written (heap fill patterns = symbolic variables); the graph is built on caller-supplied DSP memory, the self-allocated block (dsp_memory == nullptr) is a separate obligation on the SharedMemory constructor',
                        'observations: every RegisterState field, the interrupt latches, every MMIO read (0x800 offsets, each on a forked state), every data field of the timers / MIU / ICU / DMA / AHBM / BTDMP / APBP objects (hidden state such as a timer counter is observed later through Run), the 0x80000-byte DSP memory',
                        'the 65536-entry decoder table is a pure function of decoder.h (C02) and is not part of the state; callbacks are installed identically in both runs',
                        'Reset-equals-fresh: pre-state = constructed graph with all peripheral data fields, cell backing words, processor registers, interpreter latches and memory replaced by fresh variables, plus 1 and 3 words queued in AHBM burst queues 0/1 and 2 words in audio transmit queue 0 (queues are observed by size)']
@@ -259,7 +317,7 @@ def run(tier, seed):
     jobs = []
     for stage in ('ctor', 'ctor+Reset'):
         jobs += [(job_garbage, (stage, lo, min(lo + step, 0x800), tier, seed)) for lo in range(0, 0x800, step)]
-    jobs += [(job_reset, (0, 0x800, tier, seed))]
+    jobs += [(job_reset, (0, 0x800, tier, seed)), (job_own_memory, (tier, seed))]
     for r in core.pmap(_dispatch, jobs):
         if '__error__' in r:
             ck.engine_errors.append(r['__error__'])
